@@ -6,7 +6,7 @@ import (
 	"sort"
 	"time"
 
-	"github.com/rulego/streamsql/utils/simrt"
+	"verif.local/simrt"
 )
 
 // C10 — session windows split a key's events at gaps above the timeout, each event once
